@@ -30,6 +30,17 @@
 #include <nop/types/variant.h>
 #include <nop/utility/bounded_reader.h>
 #include <nop/utility/bounded_writer.h>
+#include <nop/utility/buffer_reader.h>
+#include <nop/utility/buffer_writer.h>
+#include <nop/utility/constexpr_buffer_writer.h>
+#include <nop/utility/fd_reader.h>
+#include <nop/utility/fd_writer.h>
+#include <nop/utility/pedantic_buffer_reader.h>
+#include <nop/utility/pedantic_buffer_writer.h>
+#include <nop/utility/stream_reader.h>
+#include <nop/utility/stream_writer.h>
+#include <sys/mman.h>
+#include <unistd.h>
 
 namespace vh {
 
@@ -381,6 +392,7 @@ struct IWriter {
   long calls = 0;
   std::string log;
   bool want_log = false;
+  bool table_mode = false;
 
   bool Hit(const std::string& entry) {
     if (want_log) { if (!log.empty()) log += ","; log += entry; }
@@ -412,6 +424,7 @@ struct IWriter {
   template <typename HandleType>
   nop::Status<nop::HandleReference> PushHandle(const HandleType& h) {
     if (Hit("H" + std::to_string(static_cast<long long>(h.get())))) return static_cast<nop::ErrorStatus>(fault.code);
+    if (!table_mode) return static_cast<nop::HandleReference>(h.get());   // identity references
     if (static_cast<long long>(h.get()) < 0) return nop::HandleReference{-1};
     handles.push_back(static_cast<std::int64_t>(h.get()));
     return static_cast<nop::HandleReference>(handles.size() - 1);
@@ -427,6 +440,7 @@ struct IReader {
   long calls = 0;
   std::string log;
   bool want_log = false;
+  bool table_mode = false;
 
   bool Hit(const std::string& entry) {
     if (want_log) { if (!log.empty()) log += ","; log += entry; }
@@ -461,6 +475,7 @@ struct IReader {
   template <typename HandleType>
   nop::Status<HandleType> GetHandle(nop::HandleReference ref) {
     if (Hit("G" + std::to_string(static_cast<long long>(ref)))) return static_cast<nop::ErrorStatus>(fault.code);
+    if (!table_mode) return HandleType{static_cast<typename HandleType::Type>(ref)};   // identity references
     if (ref == nop::kEmptyHandleReference) return HandleType{};
     if (ref < 0 || static_cast<std::size_t>(ref) >= handles.size()) return nop::ErrorStatus::InvalidHandleReference;
     return HandleType{static_cast<typename HandleType::Type>(handles[static_cast<std::size_t>(ref)])};
@@ -516,6 +531,23 @@ std::string CoreOps(const std::vector<Sx>& a) {
       std::string dump; Dump(dump, h->v);
       if (st) return "st=0 val=" + dump + " consumed=" + std::to_string(des.reader().index);
       return "st=" + std::to_string(Code(st)) + " partial=" + dump;
+    } else if (op == "tenc") {
+      auto h = std::make_unique<Holder<T>>();
+      Build(h->v, a.at(2));
+      nop::Serializer<IWriter> ser;
+      ser.writer().table_mode = true;
+      auto st = ser.Write(h->v);
+      return "st=" + std::to_string(Code(st)) + " bytes=" + Hex(ser.writer().out) + " handles=" + ShowHandles(ser.writer().handles);
+    } else if (op == "tdec") {
+      HeapBytes in(UnHex(a.at(2).a));
+      nop::Deserializer<IReader> des;
+      des.reader().data = in.p; des.reader().size = in.n; des.reader().handles = ParseHandles(a.at(3).a);
+      des.reader().table_mode = true;
+      auto h = std::make_unique<Holder<T>>();
+      auto st = des.Read(&h->v);
+      if (!st) return "st=" + std::to_string(Code(st));
+      std::string dump; Dump(dump, h->v);
+      return "st=0 val=" + dump + " consumed=" + std::to_string(des.reader().index);
     } else if (op == "fenc") {
       auto h = std::make_unique<Holder<T>>();
       Build(h->v, a.at(4));
@@ -536,6 +568,141 @@ std::string CoreOps(const std::vector<Sx>& a) {
       std::string r = "st=" + std::to_string(Code(st));
       if (st) { std::string dump; Dump(dump, h->v); r += " val=" + dump; }
       return r + " calls=" + std::to_string(des.reader().calls) + " log=" + (des.reader().log.empty() ? "-" : des.reader().log);
+    }
+    return "HARNESS-ERROR unknown op " + op;
+  } catch (const BadValue& e) {
+    return "HARNESS-ERROR bad value: " + e.what;
+  } catch (const std::out_of_range&) {
+    return "HARNESS-ERROR arguments";
+  }
+}
+
+
+// ------------------------------------------- library readers and writers --
+// output buffer of exactly `cap` bytes on the heap (ASan red zones around it)
+struct OutBuf {
+  std::uint8_t* p; std::size_t cap;
+  explicit OutBuf(std::size_t c) : p(new std::uint8_t[c ? c : 1]), cap(c) { std::memset(p, 0xa5, c ? c : 1); }
+  ~OutBuf() { delete[] p; }
+  OutBuf(const OutBuf&) = delete; OutBuf& operator=(const OutBuf&) = delete;
+};
+inline int MemFd(const std::vector<std::uint8_t>& bytes) {
+  int fd = memfd_create("verif", 0);
+  if (fd < 0) return -1;
+  size_t off = 0;
+  while (off < bytes.size()) { ssize_t r = ::write(fd, bytes.data() + off, bytes.size() - off); if (r <= 0) break; off += static_cast<size_t>(r); }
+  lseek(fd, 0, SEEK_SET);
+  return fd;
+}
+inline std::vector<std::uint8_t> ReadAllFd(int fd) {
+  std::vector<std::uint8_t> v; off_t end = lseek(fd, 0, SEEK_END); lseek(fd, 0, SEEK_SET);
+  v.resize(static_cast<size_t>(end)); size_t off = 0;
+  while (off < v.size()) { ssize_t r = ::read(fd, v.data() + off, v.size() - off); if (r <= 0) break; off += static_cast<size_t>(r); }
+  return v;
+}
+
+template <typename T, typename W>
+std::string WriteWith(nop::Serializer<W>& ser, const T& v) {
+  auto st = ser.Write(v);
+  return "st=" + std::to_string(Code(st));
+}
+
+// kinds that every handle-free type supports
+template <typename T>
+std::string EncBuf(const std::string& kind, std::size_t cap, std::size_t limit, const T& v) {
+  OutBuf ob(cap);
+  std::string r; std::size_t n = 0;
+  if (kind == "buf") { nop::Serializer<nop::BufferWriter> s{ob.p, cap}; r = WriteWith(s, v); n = s.writer().size(); }
+  else if (kind == "ped") { nop::Serializer<nop::PedanticBufferWriter> s{ob.p, cap}; r = WriteWith(s, v); n = s.writer().size(); }
+  else if (kind == "bbuf") { nop::BufferWriter w{ob.p, cap}; nop::Serializer<nop::BoundedWriter<nop::BufferWriter>> s{&w, limit}; r = WriteWith(s, v); n = w.size(); }
+  else if (kind == "bped") { nop::PedanticBufferWriter w{ob.p, cap}; nop::Serializer<nop::BoundedWriter<nop::PedanticBufferWriter>> s{&w, limit}; r = WriteWith(s, v); n = w.size(); }
+  else if (kind == "stream") { nop::Serializer<nop::StreamWriter<std::stringstream>> s; r = WriteWith(s, v); std::string o = s.writer().stream().str();
+    return r + " n=" + std::to_string(o.size()) + " bytes=" + Hex(reinterpret_cast<const std::uint8_t*>(o.data()), o.size()); }
+  else return "HARNESS-ERROR kind " + kind;
+  return r + " n=" + std::to_string(n) + " bytes=" + Hex(ob.p, n < cap ? n : cap);
+}
+template <typename T, bool Ok> struct CxOps { static std::string enc(std::size_t, const T&) { return "unsupported"; } };
+template <typename T> struct CxOps<T, true> {
+  static std::string enc(std::size_t cap, const T& v) {
+    OutBuf ob(cap);
+    nop::Serializer<nop::ConstexprBufferWriter> s{ob.p, cap};
+    std::string r = WriteWith(s, v); std::size_t n = s.writer().size();
+    return r + " n=" + std::to_string(n) + " bytes=" + Hex(ob.p, n < cap ? n : cap);
+  }
+};
+template <typename T, bool Ok> struct FdOps {
+  static std::string enc(const T&) { return "unsupported"; }
+  static std::string dec(const std::vector<std::uint8_t>&, std::size_t, bool) { return "unsupported"; }
+};
+template <typename T> struct FdOps<T, true> {
+  static std::string enc(const T& v) {
+    int fd = memfd_create("verifw", 0); int dupfd = dup(fd);
+    std::string r;
+    { nop::Serializer<nop::FdWriter> s{fd}; r = WriteWith(s, v); }   // closes fd
+    std::vector<std::uint8_t> o = ReadAllFd(dupfd); ::close(dupfd);
+    return r + " n=" + std::to_string(o.size()) + " bytes=" + Hex(o);
+  }
+  static std::string dec(const std::vector<std::uint8_t>& in, std::size_t limit, bool bounded) {
+    int fd = MemFd(in); int dupfd = dup(fd);
+    auto h = std::make_unique<Holder<T>>();
+    int code;
+    if (bounded) { nop::FdReader rd{fd}; nop::Deserializer<nop::BoundedReader<nop::FdReader>> d{&rd, limit}; code = Code(d.Read(&h->v)); }
+    else { nop::Deserializer<nop::FdReader> d{fd}; code = Code(d.Read(&h->v)); }
+    off_t pos = lseek(dupfd, 0, SEEK_CUR); ::close(dupfd);
+    if (code) return "st=" + std::to_string(code);
+    std::string dump; Dump(dump, h->v);
+    return "st=0 val=" + dump + " consumed=" + std::to_string(static_cast<long long>(pos));
+  }
+};
+
+template <typename T>
+std::string DecBuf(const std::string& kind, const std::vector<std::uint8_t>& bytes, std::size_t limit) {
+  HeapBytes in(bytes);
+  auto h = std::make_unique<Holder<T>>();
+  int code; std::size_t consumed = 0;
+  if (kind == "buf") { nop::Deserializer<nop::BufferReader> d{in.p, in.n}; code = Code(d.Read(&h->v)); consumed = d.reader().capacity() - d.reader().remaining(); }
+  else if (kind == "ped") { nop::Deserializer<nop::PedanticBufferReader> d{in.p, in.n}; code = Code(d.Read(&h->v)); consumed = d.reader().capacity() - d.reader().remaining(); }
+  else if (kind == "bbuf") { nop::BufferReader r{in.p, in.n}; nop::Deserializer<nop::BoundedReader<nop::BufferReader>> d{&r, limit}; code = Code(d.Read(&h->v)); consumed = r.capacity() - r.remaining(); }
+  else if (kind == "bped") { nop::PedanticBufferReader r{in.p, in.n}; nop::Deserializer<nop::BoundedReader<nop::PedanticBufferReader>> d{&r, limit}; code = Code(d.Read(&h->v)); consumed = r.capacity() - r.remaining(); }
+  else if (kind == "stream" || kind == "bstream") {
+    std::string sdata(reinterpret_cast<const char*>(in.p), in.n);
+    if (kind == "stream") {
+      nop::Deserializer<nop::StreamReader<std::stringstream>> d{sdata};
+      code = Code(d.Read(&h->v));
+      if (!code) { auto pos = d.reader().stream().tellg(); consumed = pos < 0 ? in.n : static_cast<std::size_t>(pos); }
+    } else {
+      nop::StreamReader<std::stringstream> r{sdata};
+      nop::Deserializer<nop::BoundedReader<nop::StreamReader<std::stringstream>>> d{&r, limit};
+      code = Code(d.Read(&h->v));
+      if (!code) { auto pos = r.stream().tellg(); consumed = pos < 0 ? in.n : static_cast<std::size_t>(pos); }
+    }
+  }
+  else return "HARNESS-ERROR kind " + kind;
+  if (code) return "st=" + std::to_string(code);
+  std::string dump; Dump(dump, h->v);
+  return "st=0 val=" + dump + " consumed=" + std::to_string(consumed);
+}
+
+// Cx: ConstexprBufferWriter usable; Fd: FdReader/FdWriter usable (no Skip => no tables)
+template <typename T, bool Cx, bool Fd>
+std::string LibOps(const std::vector<Sx>& a) {
+  const std::string& op = a.at(0).a;
+  try {
+    if (op == "encw") {          // encw T KIND CAP LIMIT VAL
+      auto h = std::make_unique<Holder<T>>();
+      Build(h->v, a.at(5));
+      const std::string& kind = a.at(2).a;
+      std::size_t cap = ParseInt<std::size_t>(a.at(3).a), limit = ParseInt<std::size_t>(a.at(4).a);
+      if (kind == "cx") return CxOps<T, Cx>::enc(cap, h->v);
+      if (kind == "fd") return FdOps<T, Fd>::enc(h->v);
+      return EncBuf<T>(kind, cap, limit, h->v);
+    } else if (op == "decr") {   // decr T KIND LIMIT HEX
+      const std::string& kind = a.at(2).a;
+      std::size_t limit = ParseInt<std::size_t>(a.at(3).a);
+      std::vector<std::uint8_t> bytes = UnHex(a.at(4).a);
+      if (kind == "fd") return FdOps<T, Fd>::dec(bytes, limit, false);
+      if (kind == "bfd") return FdOps<T, Fd>::dec(bytes, limit, true);
+      return DecBuf<T>(kind, bytes, limit);
     }
     return "HARNESS-ERROR unknown op " + op;
   } catch (const BadValue& e) {
